@@ -16,6 +16,7 @@ def parseOp : List String → Option Op
   | ["g", v] => do let v ← v.toNat?; if v < 18446744073709551616 then pure (.get v) else none
   | ["f"] => some .flush
   | ["r"] => some .reap
+  | ["h"] => some .reread
   | ["k", n] => do let n ← n.toNat?; if n < W then pure (.consume n) else none
   | "p" :: vs => do
       let vs ← parseNats vs
@@ -50,7 +51,7 @@ def runCase (cd : Code) (toks : List String) : String :=
   | _ => "bad-op"
 
 /-- `mode debug|release` is accepted for symmetry with the harness (the current code has no
-build-dependent arithmetic); `code orig-debug|orig-release|fixed` selects the modelled version. -/
+build-dependent arithmetic); `code orig-debug|orig-release|eager-release|fixed` selects the modelled version. -/
 def step' (cd : Code) (line : String) : Code × String :=
   match Drv.words line with
   | ["mode", "debug"] => (cd, "ok")
@@ -58,6 +59,7 @@ def step' (cd : Code) (line : String) : Code × String :=
   | ["code", "fixed"] => (.fixed, "ok")
   | ["code", "orig-debug"] => (.orig false, "ok")
   | ["code", "orig-release"] => (.orig true, "ok")
+  | ["code", "eager-release"] => (.eagerRelease, "ok")
   | ["wake", w] => (cd, match w.toNat? with
       | some w => if w < 4294967296 then (if needsWakeup w then "w1" else "w0") else "bad-op"
       | none => "bad-op")
